@@ -460,12 +460,22 @@ func enumerateRejections(P *Program, R *Report, rule, key string, fn *ssa.Functi
 	return n
 }
 
-// sameReceiver: g is a plain function, or a method on the same receiver type as fn.
+// sameReceiver: g works on fn's own receiver (a method of the same type, or a function handed that receiver).
 func sameReceiver(fn, g *ssa.Function) bool {
 	rg := g.Signature.Recv()
-	if rg == nil {
-		return true
-	}
 	rf := fn.Signature.Recv()
+	if rg == nil {
+		// a plain function counts when fn is one too, or when it is handed fn's receiver
+		if rf == nil {
+			return true
+		}
+		ps := g.Signature.Params()
+		for i := 0; i < ps.Len(); i++ {
+			if types.Identical(ps.At(i).Type(), rf.Type()) {
+				return true
+			}
+		}
+		return false
+	}
 	return rf != nil && types.Identical(rf.Type(), rg.Type())
 }
